@@ -213,3 +213,42 @@ Theorem bundle_v2_store_reestablishes_invariant :
     v2_wf f0 -> flen f0 + total_len b <= P40 -> v2_batch_ok b ->
     v2_wf (bw_apply_all f0 (v2_store_ops f0 b)).
 Proof. exact v2_store_wf. Qed.
+
+(* ---- limit of the v1 claim, proved rather than hidden: with page-granular tearing (B = 4096) the 5-byte index
+   entry of slot 1635 (file offsets 8191..8195) can be cut at offset 8192; the torn entry (new low byte, old
+   high bytes) names a place in the zero area and the reader reports the tile missing although it had content.
+   The v1 theorem is therefore stated for atomic index writes (A1, B = infinity) and says so. *)
+Theorem bundle_v1_page_tear_refuted :
+  cut_allowed 4096 (16 + 5 * 1635) 5 8192 /\
+  v1_raw_ok pt_b (flen (v1dat pt_s0)) pt_s0 pt_ops = true /\
+  nth_error pt_ops 3 = Some (WI 8191 (le 5 (flen (v1dat pt_s0)))) /\
+  let s3 := v1_apply_all pt_s0 (firstn 3 pt_ops) in
+  let torn := v1_apply s3 (WI 8191 (firstn 1 (le 5 (flen (v1dat pt_s0))))) in
+  rres_eqb (v1_read pt_s0 1635) (RData [1; 2; 3]) = true /\
+  rres_eqb (v1_read (v1_apply_all pt_s0 pt_ops) 1635) (RData [9; 8; 7]) = true /\
+  rres_eqb (v1_read torn 1635) RMissing = true.
+Proof. exact v1_page_tear_refuted. Qed.
+
+(* ---- the model of BundleV1.store_tiles (program order: size, data, header rewrite, index entry) obeys the
+   discipline for every batch of non-empty tiles below 2^32 bytes while the data file stays below 2^40 bytes,
+   hence every crash state of the modelled v1 store shows each slot old or complete new, and the completed
+   store re-establishes the invariant. *)
+Theorem bundle_v1_writer_obeys_discipline :
+  forall b s0,
+    v1_wf s0 -> flen (v1dat s0) + total_len b <= 1099511627776 -> v1_batch_ok b ->
+    v1_raw_ok b (flen (v1dat s0)) s0 (v1_store_ops s0 b) = true.
+Proof. exact v1_store_ops_valid. Qed.
+
+Theorem crash_safe_bundle_v1_store :
+  forall b s0 s' slot,
+    v1_wf s0 -> flen (v1dat s0) + total_len b <= 1099511627776 -> v1_batch_ok b ->
+    In s' (v1_crash_states s0 (v1_store_ops s0 b)) -> 0 <= slot < SLOTS ->
+    v1_read s' slot = v1_read s0 slot \/
+    exists dd, has_data b slot dd = true /\ dd <> [] /\ v1_read s' slot = RData dd.
+Proof. exact v1_store_crash_safe. Qed.
+
+Theorem bundle_v1_store_reestablishes_invariant :
+  forall b s0,
+    v1_wf s0 -> flen (v1dat s0) + total_len b <= 1099511627776 -> v1_batch_ok b ->
+    v1_wf (v1_apply_all s0 (v1_store_ops s0 b)).
+Proof. exact v1_store_wf. Qed.
